@@ -91,6 +91,14 @@ pub fn c16_value_case(bytes: &[u8], stats: &mut Stats, counting: bool, allow_enu
                 }
             },
         }
+        // the untagged form itself (no text in between): conversion there and back preserves every value, enums included
+        {
+            let t: TransparentValue = v.clone().into();
+            let back: FieldValue = t.into();
+            if !same_value(&back, &v) {
+                return Some(("untagged-conversion-changed-value".into(), format!("{v:?} -> TransparentValue -> {back:?}")));
+            }
+        }
         // untagged JSON form and back
         if !has_enum(&v) || allow_enum_untagged {
             let t: TransparentValue = v.clone().into();
